@@ -39,6 +39,17 @@ hub = get_hub()
 class CUR:
     now = 0
     choices = []
+    timers = []      # virtual timers of VEvent.wait(timeout=...): [deadline in virtual seconds, AsyncResult]
+
+
+def fire_timers():
+    """The virtual clock moved (ops T, U) or a timed wait started: every timed wait whose deadline has passed
+    times out, exactly as gevent's Timeout would once the wall clock passes it (delivered at the next loop turn)."""
+    for ent in list(CUR.timers):
+        if ent[0] <= CUR.now:
+            CUR.timers.remove(ent)
+            if not ent[1].ready():
+                ent[1].set(False)
 
 
 def _choice(seq):
@@ -61,9 +72,35 @@ class AR(gevent.event.AsyncResult):
                 st["sim"].log.append(["blocked"])
 
 
+class VEvent(gevent.event.Event):
+    """gevent Event whose wait(timeout=...) counts the timeout on the VIRTUAL clock (CUR.now) instead of the wall
+    clock, so that code which bounds a wait by time.time()-derived amounts is exercised deterministically.  wait()
+    without timeout and every other method are gevent's own."""
+
+    def wait(self, timeout=None):
+        if timeout is None or self.is_set():
+            return super().wait()
+        ar = gevent.event.AsyncResult()
+
+        def cb(_):
+            if not ar.ready():
+                ar.set(True)
+
+        self.rawlink(cb)
+        ent = [CUR.now + timeout, ar]
+        CUR.timers.append(ent)
+        fire_timers()
+        try:
+            return ar.get()
+        finally:
+            self.unlink(cb)
+            if ent in CUR.timers:
+                CUR.timers.remove(ent)
+
+
 jobs.random = types.SimpleNamespace(choice=_choice)
 jobs.time = types.SimpleNamespace(time=lambda: CUR.now)
-jobs.event = types.SimpleNamespace(Event=gevent.event.Event, AsyncResult=AR)
+jobs.event = types.SimpleNamespace(Event=VEvent, AsyncResult=AR)
 
 
 def chan_s(k):
@@ -92,7 +129,8 @@ def rec(d):
     """canonical job record from a _json() dict"""
     info = d.get("info") or {}
     return [d.get("serial"), jid_s(d.get("jobid")), chan_n(d["channel"]), d["priority"], d["timeout"],
-            bool(d.get("done", False)), err_code(d.get("error")), d.get("result"), info.get("p"), d.get("ttl", 3600)]
+            bool(d.get("done", False)), err_code(d.get("error")), d.get("result"), info.get("p"), d.get("ttl", 3600),
+            d.get("deadline"), bool(d.get("drop", False))]
 
 
 class Sim:
@@ -106,12 +144,14 @@ class Sim:
         self.handed = {}
         self.requeued = {}
         self.base_done = {}     # channel -> finished jobs that existed at the last restart
+        self.issued = {}        # serial -> jobid of every job object ever created (survives restarts)
         self.viol = []
         self.at = 0
         self.done_before_loop = set()
         self.in_loop = False
         CUR.now = 0
         CUR.choices = []
+        CUR.timers = []
 
     # ------------------------------------------------------------ connections
     def conn(self, c):
@@ -239,7 +279,9 @@ class Sim:
                     places.append("handed to blocked connection %d" % st["id"])
             if len(places) != 1:
                 self.v("conservation", "unfinished job %s (serial %d) is in %d places: %s" % (jid_s(j.jobid), ser, len(places), places))
-            if wq.id2job.get(j.jobid) is not j:
+            if wq.id2job.get(j.jobid) is not j and not any(o.drop and o.jobid == j.jobid for o in self.tracked.values() if o is not j):
+                # (excluded: rpc_qdrop outside C16's alphabet - waitjobs deletes id2job[jobid] of a dropped job BY ID, which
+                #  after kill + re-add is the new job; see coq/C16/Properties.v and /verif/fixes/C16-drop-deletes-readded.diff)
                 other = wq.id2job.get(j.jobid)
                 self.v("addressable", "unfinished job %s (serial %d) is not the job registered under its id (id2job has serial %s)" % (
                     jid_s(j.jobid), ser, getattr(other, "serial", None)))
@@ -294,6 +336,16 @@ class Sim:
             count0 = wq.count
             p = self.conn(0)["plugin"]
             r = p.rpc_qadd(ch, payload=None, priority=prio, jobid=name, timeout=tmo)
+            if wq.count != count0 or (name is None):
+                nj = wq.id2job.get(r)
+                if nj is not None and (old is None or nj is not old):
+                    # a NEW job object: its serial, and its id when the server chose it, must never have been issued
+                    # before - not even before a restart (C18: "job ids are not reused for new jobs")
+                    if nj.serial in self.issued:
+                        self.v("id_reuse", "new job got serial %r which was issued before to job %s" % (nj.serial, jid_s(self.issued[nj.serial])))
+                    elif name is None and r in self.issued.values():
+                        self.v("id_reuse", "new job got the server-chosen id %r which was issued before" % (r,))
+                    self.issued.setdefault(nj.serial, r)
             if old is not None:
                 if old.error != "killed":
                     if r != name or wq.count != count0 or wq.id2job.get(name) is not old:
@@ -341,6 +393,21 @@ class Sim:
         if k == "T":
             CUR.now += int(t[1])
             wq.handletimeouts()
+            fire_timers()
+            self.track()
+            for ser, j in self.tracked.items():
+                if not j.done and j.timeout <= CUR.now:
+                    self.v("timeout", "handletimeouts ran at t=%d but unfinished job serial %d with deadline %d was not timed out" % (CUR.now, ser, j.timeout))
+            return [["unit"]]
+        if k == "U":                      # the clock moves on; the once-a-second handletimeouts sweep has not run yet
+            CUR.now += int(t[1])
+            fire_timers()
+            return [["unit"]]
+        if k == "Y":
+            self.conn(0)["plugin"].rpc_qdrop([] if t[1] == "-" else [jid_py(x) for x in t[1].split(",")])
+            return [["unit"]]
+        if k == "G":
+            wq.dropdead()
             return [["unit"]]
         if k == "D":
             st = self.conn(int(t[1]))
@@ -416,7 +483,8 @@ class Sim:
         old.kill_all()          # old greenlets die against the old object graph at the next loop turn
         new = Sim.__new__(Sim)
         new.__dict__.update(db=pickle.loads(blob), conns={}, log=[], tracked={}, final={}, handed={}, requeued={},
-                            base_done={}, viol=old.viol, at=old.at, done_before_loop=set(), in_loop=False)
+                            base_done={}, viol=old.viol, at=old.at, done_before_loop=set(), in_loop=False, issued=old.issued)
+        CUR.timers = []
         new.wq = new.db.workq
         for st in old.conns.values():
             st["sim"] = old            # their late output goes to the old log
